@@ -1104,3 +1104,92 @@ def fam_routes(tier, seed):
 
 
 FAMILIES["routes"] = fam_routes
+
+
+# ----------------------------------------------------------------------------- F-types (C03)
+
+RUST_KEYWORDS = ["as", "break", "const", "continue", "else", "enum", "extern", "false", "fn", "for", "if",
+                 "impl", "in", "let", "loop", "match", "mod", "move", "mut", "pub", "ref", "return", "self",
+                 "Self", "static", "struct", "super", "trait", "true", "type", "unsafe", "use", "where",
+                 "while", "async", "await", "dyn", "abstract", "become", "box", "do", "final", "macro",
+                 "override", "priv", "typeof", "unsized", "virtual", "yield", "try"]
+RAW_OK = [k for k in RUST_KEYWORDS if k not in ("self", "Self", "super", "crate")]
+TEMPLATE_LOCALS = ["state", "global", "result", "r", "parsed", "cache_key", "iterations", "new_state", "err", "ok_result",
+                   "best_result", "new_result", "cached", "string", "settings", "s", "user_context"]
+
+
+def fam_types(tier, seed):
+    import copy
+    rnd = random.Random(seed * 7919 + 23)
+    out = []
+
+    def add(g, derives=None):
+        g.id = "ty_%04d" % len(out)
+        g.meta = dict(g.meta)
+        g.meta["flags"] = "typesonly"
+        g.extra = []
+        g.maxlen = 0
+        if derives is not None:
+            g.meta["derives"] = ",".join(derives)
+            g.meta["derives_list"] = list(derives)
+        out.append(g)
+
+    # 1. every field-plumbing shape of the fields family
+    base = fam_fields(tier, seed)
+    for g in (base if tier != "quick" else base[:120]):
+        add(copy.deepcopy(g))
+    # 2. rule kinds
+    P = "verif_common::oracles::"
+    kinds = [
+        ("kinds", [Rule("S", Seq(Call("Str", "a"), Call("StrPos", "b"), Call("Cls", "c"), Call("ExtS", "d"), Call("ExtC", "e"),
+                             Call("Unit", "f"), Call("Pos", "g"), Call("OvS", "h"), Call("OvE", "i"), Call("OvB", "j"), Call("OvO", "k"),
+                             Call("OvV", "l"), Call("char", "m")), export=True),
+                   Rule("Str", Lit("a"), string=True), Rule("StrPos", Lit("a"), string=True, position=True),
+                   CharRule("Cls", [("lit", "a")]),
+                   ExternRule("ExtS", {"o": "digits", "path": P + "ext_digits", "nullable": False}),
+                   ExternRule("ExtC", {"o": "upper", "path": P + "ext_upper", "ret": "char", "nullable": False}),
+                   Rule("Unit", Lit("u")), Rule("Pos", Seq(Lit("p"), Opt(Call("Unit", "u"))), position=True),
+                   Rule("OvS", Seq(Lit("("), Call("Unit", "@"), Lit(")"))),
+                   Rule("OvE", Choice(Call("Unit", "@"), Call("Str", "@"), Call("char", "@"))),
+                   Rule("OvB", Choice(Call("Unit", "@", boxed=True), Call("Pos", "@"))),
+                   Rule("OvO", Opt(Call("Unit", "@"))), Rule("OvV", Clo(Call("Unit", "@", boxed=True)))]),
+        ("recursive_box", [Rule("S", Seq(Lit("("), Opt(Call("S", "inner", boxed=True)), Lit(")"), Clo(Call("S", "more"))), export=True)]),
+        ("recursive_enum", [Rule("E", Choice(Call("Add", "@", boxed=True), Call("Num", "@")), export=True),
+                            Rule("Add", Seq(Lit("+"), Call("E", "l"), Call("E", "r"))), Rule("Num", Lit("1"), string=True)]),
+        ("leftrec_types", [Rule("E", Choice(Seq(Call("E", "l", boxed=True), Lit("+"), Call("N", "r")), Call("N", "r")), export=True, leftrec=True, position=True),
+                           Rule("N", Lit("n"), memoize=True)]),
+        ("position_enum", [Rule("S", Call("O", "o"), export=True), Rule("O", Choice(Call("X", "@"), Call("Y", "@")), position=True),
+                           Rule("X", Lit("x"), position=True), Rule("Y", Lit("y"), string=True, position=True)]),
+    ]
+    for name, rules in kinds:
+        g = Grammar("x", rules, meta={"shape": name})
+        g.alpha = ["a"]
+        add(g)
+    # 3. names: Rust keywords as rule and field names, and the generator's own local names as field names
+    kws = RAW_OK if tier != "quick" else sample(rnd, RAW_OK, 12) + ["type", "match", "fn", "box", "async", "try"]
+    for kw in dict.fromkeys(kws):
+        g = Grammar("x", [Rule("S", Seq(Call(kw, kw), Opt(Call(kw, "o")), Clo(Call("Other", kw))), export=True),
+                          Rule(kw, Lit("k"), position=True), Rule("Other", Call(kw, "@"))], meta={"shape": "keyword_" + kw})
+        g.alpha = ["k"]
+        add(g)
+    for nm in TEMPLATE_LOCALS:
+        for shape, body in (("seq", lambda n: Seq(Call("A", n), Lit(","), Call("B", "other"))),
+                            ("clo", lambda n: Seq(Clo(Seq(Call("A", n), Lit(","))), Opt(Call("B", "other")))),
+                            ("single", lambda n: Seq(Lit("("), Call("A", n), Lit(")")))):
+            g = Grammar("x", [Rule("S", body(nm), export=True, position=(shape == "seq")), Rule("A", Lit("a")), Rule("B", Lit("b"))],
+                        meta={"shape": "local_%s_%s" % (nm, shape), "local_name": nm})
+            g.alpha = ["a"]
+            add(g)
+    # 4. derive sets
+    for dv in (["Debug", "Clone"], ["Debug", "Clone", "PartialEq", "Eq"], ["Debug"], [], ["Clone"], ["Clone", "PartialEq", "Eq", "Hash"]):
+        rules = copy.deepcopy(kinds[0][1])
+        for r in rules:
+            if r.kind == "rule" and "Clone" not in dv:
+                r.memoize = False
+        g = Grammar("x", rules, meta={"shape": "derives_" + "_".join(dv)})
+        g.alpha = ["a"]
+        add(g, derives=dv)
+    return out
+
+
+FAMILIES["types"] = fam_types
